@@ -1405,6 +1405,20 @@ func (c *Client) onPUBLISH(head byte) (message, topic []byte, err error) {
 			return nil, nil, err
 		}
 		if bytes != nil {
+			// “Until it has received the corresponding PUBREL packet,
+			// the Receiver MUST acknowledge any subsequent PUBLISH
+			// packet with the same Packet Identifier by sending a
+			// PUBREC.”
+			// — MQTT Version 3.1.1, subsection 4.3.3
+			if len(c.pendingAck) != 0 {
+				return nil, nil, fmt.Errorf("mqtt: internal error: ack %#x pending during PUBLISH exactly once reception", c.pendingAck)
+			}
+			c.pendingAck = append(c.pendingAck, typePUBREC<<4, 2, byte(packetID>>8), byte(packetID))
+			err := c.writeBuffersNoWait(net.Buffers{c.pendingAck})
+			if err != nil {
+				return nil, nil, err // keeps pendingAck to retry
+			}
+			c.pendingAck = c.pendingAck[:0]
 			return nil, nil, errDupe
 		}
 
